@@ -100,8 +100,9 @@ def gen_unit(rng, bad=False):
     num = str(rng.randint(-20, 3000))
     name = rng.choice(["A", "C", "G", "U", "DA", "PSU", "5MC"])
     icode = rng.choice(["", "", "", "A", "B"])
-    fields = ["1EHZ", str(rng.randint(1, 3)), chain, name, num, "", "", icode]
-    cut = rng.choice([8, 8, 8, 5, 7])
+    # FR3D unit ids have up to nine fields: PDB|model|chain|name|number|atom|altloc|icode|symmetry operator
+    fields = ["1EHZ", str(rng.randint(1, 3)), chain, name, num, "", "", icode, rng.choice(["6_555", "1_555", ""])]
+    cut = rng.choice([8, 8, 9, 9, 5, 7])
     fields = fields[:cut]
     if bad:
         k = rng.choice(["short", "nonint", "empty", "spaces", "underscore", "plus", "float"])
